@@ -97,7 +97,7 @@ void Model::submit(int mi, const Post& p) {
         else b_process_internal(mi, e, SRC_DIRECT);
     } else if (p.api == API_ENQUEUE) {
         if (mp()) m_do_defer(mi, e, false);
-        else inst_[mi].q_msg.push_back(BQItem{e, SRC_MSGQ});
+        else if (M(mi).queue) inst_[mi].q_msg.push_back(BQItem{e, SRC_MSGQ});      // no_message_queue: enqueue_event is empty
     } else if (p.api == API_CLEARDEF) {
         // C20: clearing the deferred queue from inside a dispatch destroys the stored copies; the occurrence being
         // dispatched (already taken out of the queue) is unaffected
@@ -455,10 +455,12 @@ void Model::b_defer(int mi, const MEv& e) {
 int Model::b_process_internal(int mi, const MEv& e, int source) {
     MInst& I = inst_[mi];
     if (blocked_b(mi, e.ev)) return R_TRUE;                         // C11
-    if (I.busy) {                                                   // C04: stored, not run re-entrantly
+    const bool has_queue = M(mi).queue || mp();                      // back / back11 front-end option no_message_queue
+    if (I.busy && has_queue) {                                      // C04: stored, not run re-entrantly
         I.q_msg.push_back(BQItem{e, (uint8_t)(SRC_DIRECT | SRC_MSGQ)});
         return R_TRUE;
     }
+    const bool was_busy = I.busy;
     I.busy = true;
     int handled;
     try {
@@ -467,7 +469,7 @@ int Model::b_process_internal(int mi, const MEv& e, int source) {
         call(K_EC, mi, mi, info(e));                                // C12: contained, level answers "not handled"
         handled = R_FALSE;
     }
-    I.busy = false;
+    I.busy = has_queue ? false : was_busy;     // a machine without queue never touches the flag itself (the entry blocker does)
     if (M(mi).has_completion && (handled & R_TRUE)) b_process_internal(mi, MEv{EV_NONE, OCC_NONE}, source | SRC_DIRECT); // C10
     if (M(mi).queue_first) {
         // front-end option event_queue_before_deferred_queue: pending submissions first, then the deferred events
